@@ -195,6 +195,7 @@ def viewRoot (s : Schema) (k : OpK) : Option ITypeDef := (s.rootName k).bind (vi
 /-- is object type `o` among the implementers of interface `i`? -/
 def implementsB (s : Schema) (i o : String) : Bool := (s.objectImplementers i).contains o
 
+/-- `a ≃ b`: the two schemas answer every lookup alike after erasure (see the section comment) -/
 structure Equiv (a b : Schema) : Prop where
   types : ∀ n, viewType a n = viewType b n
   directives : ∀ n, viewDirective a n = viewDirective b n
